@@ -154,6 +154,23 @@ class Interp:
     # ------------------------------------------------------------ frames
     def make_locals(self, routine, frame):
         """Allocate non-dummy declarations (after dummies are bound)."""
+        # imports from data-only modules: shared cells, created once
+        for u in routine.get("uses", []) if routine.get(
+                "kind") != "program" else []:
+            mname, _, only = u.partition(",")
+            names = [x.strip().lower() for x in
+                     only.split(":", 1)[1].split(",")] if ":" in only else None
+            for em in self.unit.get("extra_modules", []):
+                if em["name"].lower() != mname.strip().lower():
+                    continue
+                store = self.__dict__.setdefault("_modvars", {}).setdefault(
+                    em["name"].lower(), {})
+                if not store:
+                    fake = {"decls": em["decls"], "kind": "module"}
+                    self.make_locals(fake, store)
+                for nm, cell in store.items():
+                    if (names is None or nm in names) and nm not in frame:
+                        frame[nm] = cell
         for d in routine["decls"]:
             nm = d["name"].lower()
             if nm in frame:
@@ -627,9 +644,9 @@ class Interp:
             elif t == "verb":
                 pass
             elif t == "exit":
-                raise _Exit()
+                raise _Exit(s[1] if len(s) > 1 else None)
             elif t == "cycle":
-                raise _Cycle()
+                raise _Cycle(s[1] if len(s) > 1 else None)
             elif t == "return":
                 raise _Return()
             else:
@@ -688,6 +705,7 @@ class Interp:
         if st == 0:
             raise Trap("zero step")
         trips = max(0, tdiv(hi - lo + st, st))
+        cname = s[6] if len(s) > 6 else None
         self.wr(var, lo)
         self.tr.stmt(s, 2)      # header evaluated
         k = 0
@@ -695,10 +713,14 @@ class Interp:
             self.tr.iteration(s, k, var.v)
             try:
                 self.run_body(s[5], fr)
-            except _Cycle:
-                pass
-            except _Exit:
+            except _Cycle as cy:
+                if cy.args and cy.args[0] and cy.args[0] != cname:
+                    self.tr.iteration(s, -1, None)
+                    raise
+            except _Exit as ex_:
                 self.tr.iteration(s, -1, None)
+                if ex_.args and ex_.args[0] and ex_.args[0] != cname:
+                    raise
                 return
             self.tick()
             self.wr(var, self.rd(var) + st)
